@@ -15,13 +15,14 @@ def _unit(bounded, maxm):
     log = []
     text = X.src("include/parmcb/forestindex.hpp")
     fn_body = X.body_after(text, r"void create_index\(const Graph &g\)\s*", "ForestIndex::create_index")
-    i = fn_body.find("size_type csd")
-    if i < 0:
+    mi = re.search(r"(?:size_type\s+)?csd\s*=", fn_body)
+    if not mi:
         from lib.core import Undecided
-        raise Undecided("extraction out of date: csd declaration in create_index")
-    region = fn_body[i:]
+        raise Undecided("extraction out of date: csd computation in create_index")
+    region = fn_body[mi.start():]
     region = X.rewrite(region, [
-        (r"\bsize_type\b", "size_t", 3, "type-binding", "ForestIndex::size_type -> size_t"),
+        (r"^(?:size_type\s+)?csd\s*=", "size_t csd =", 1, "type-binding", "csd (local or cached member) bound to a local of the extracted function"),
+        (r"\bsize_type\b", "size_t", 2, "type-binding", "ForestIndex::size_type -> size_t"),
         (r"EdgeIt ei, eiend;", "size_t ei, eiend;", 1, "container-api", "edge iterator = ordinal counter"),
         (r"boost::tie\(ei, eiend\) = boost::edges\(g\)", "ei = 0, eiend = m", 1, "container-api", "boost::edges(g) = ordinals 0..m"),
         (r"auto e = \*ei;", "size_t e = ei;", 1, "container-api", "dereferencing the edge iterator yields the ordinal"),
@@ -86,3 +87,63 @@ void h_number(void) {
 
 def units(tier):
     return [X.guarded("K15_forestindex_numbering", _unit, False, 16)]
+
+
+# ---------------------------------------------------------------------------------------------------
+# copy constructor / copy assignment: every data member of the class is copied (the member list is
+# extracted from the class, so a member added later is covered automatically)
+def _copy_unit(which):
+    log = []
+    text = X.src("include/parmcb/forestindex.hpp")
+    cls = X.body_after(text, r"class ForestIndex\s*", "class ForestIndex")
+    priv = cls[cls.rindex("private:"):]
+    if "void create_index" not in priv:
+        from lib.core import Undecided
+        raise Undecided("extraction out of date: create_index not in the private section")
+    priv = priv[:priv.index("void create_index")]
+    members = re.findall(r"^\s*(?:size_type|std::map<Edge, size_type>|std::vector<Edge>)\s+(\w+)(?:\s*=\s*0)?;", priv, re.M)
+    if len(members) < 5:
+        from lib.core import Undecided
+        raise Undecided("extraction out of date: data members of ForestIndex (%s)" % members)
+    log.append(dict(pattern="data member declarations", fired=len(members), expected=">=5", kind="type-binding",
+                    note="members: " + ", ".join(members) + " (containers bound to an opaque value identity)"))
+    if which == "ctor":
+        body = X.body_after(cls, r"ForestIndex\(const ForestIndex &ei\)\s*", "copy constructor")
+    else:
+        body = X.body_after(cls, r"ForestIndex& operator=\(const ForestIndex &ei\)\s*", "copy assignment")
+    body = X.rewrite(body, [
+        (r"\bthis == &ei\b", "this_ == ei", (0, 1), "type-binding", "self-assignment test"),
+        (r"return \*this;", "return;", (0, 2), "type-binding", "reference return"),
+        (r"\b(\w+) = ei\.(\w+);", r"this_->\1 = ei->\2;", (3, 12), "type-binding", "member access through this / ei"),
+    ], log)
+    fields = "".join("  unsigned long %s;\n" % m for m in members)
+    ens = "\n".join("__CPROVER_ensures(this_->%s == __CPROVER_old(ei->%s))" % (m, m) for m in members)
+    fn = """
+typedef struct {
+%s} FI;
+void copy_op(FI *this_, const FI *ei)
+__CPROVER_requires(__CPROVER_w_ok(this_, sizeof(FI)) && __CPROVER_r_ok(ei, sizeof(FI)))
+__CPROVER_assigns(*this_)
+/* the copy answers every query like the source: every data member is copied */
+%s
+{%s}
+void h_copy(void) {
+  FI a, b; FI *t = &a; const FI *s = &b; _Bool alias; if (alias) s = &a;
+  copy_op(t, s);
+  __CPROVER_assert(0, "VP_REACH end");
+}
+""" % (fields, ens, body)
+    return dict(unit="K15_forestindex_copy_" + which, lang="c", source="include/parmcb/forestindex.hpp ForestIndex copy " + which,
+                text=fn, entry="h_copy", enforce="copy_op", mode="proof", timeout=120, rewrites=log,
+                bound="all member values, incl. self-assignment", dropped=["class wrapper"],
+                functions={"ForestIndex copy %s" % which: "proved (member-wise)"},
+                assumptions=["std::map / std::vector copy assignment copy the value (containers bound to an opaque identity)"],
+                trusted=["cbmc 6.11 + DFCC"])
+
+
+_units0 = units
+
+
+def units(tier):
+    return _units0(tier) + [X.guarded("K15_forestindex_copy_ctor", _copy_unit, "ctor"),
+                            X.guarded("K15_forestindex_copy_assign", _copy_unit, "assign")]
